@@ -196,4 +196,36 @@ theorem rlFinish_delivers (isD : Nat → Bool) (r r' : Rl) (t : Str) (hJ : J r) 
           rw [ho, ho1, ht]
           simp
 
+/-! ### what TAB offers is a function of the line (sessions that go back and edit) -/
+
+theorem sortStrs_nil : sortStrs [] = [] := rfl
+
+theorem rlWords_exact (isD : Nat → Bool) (r r' : Rl) (np w : Str) (l : List Str)
+    (h : rlWords isD r np w = (r', .ok l)) :
+    l = [] ∨ l = sortStrs ((getCompletions w 2).map fun c => np ++ 45 :: c) := by
+  unfold rlWords at h
+  split at h
+  · simp at h
+  · next s3 heq =>
+    split at h
+    · simp at h
+    · next l0 hret =>
+      simp only [Prod.mk.injEq, Except.ok.injEq] at h
+      obtain ⟨_, rfl⟩ := h
+      rcases wordCompl_exact isD r.s s3 w l0 heq hret with ⟨_, rfl⟩ | ⟨_, rfl⟩
+      · exact Or.inl rfl
+      · exact Or.inr rfl
+
+theorem rlTab_exact (isD : Nat → Bool) (r r' : Rl) (t np w : Str) (l : List Str)
+    (hp : parseText t = some (np, w)) (h : rlTab isD r t = (r', .ok l)) :
+    l = [] ∨ l = sortStrs ((getCompletions w 2).map fun c => np ++ 45 :: c) := by
+  unfold rlTab rlBuild at h
+  split at h
+  · simp at h
+  · rw [hp] at h
+    simp only at h
+    split at h
+    · simp at h
+    · next r1 _ => exact rlWords_exact isD r1 r' np w l h
+
 end WV.Proofs.C19
